@@ -63,4 +63,15 @@ def holdsRoutes (msgs : List RouteMsg) (failed : Bool) (r : Res SysRoute) : Bool
     | .ok l => zipAllR msgs l
     | _ => false
 
+/-- the documented behaviour: a route message without destination attribute and with destination
+    length 0 is the default route `::/0` (and is a route like any other) -/
+def holdsRoutesDoc (msgs : List RouteMsg) (failed : Bool) (r : Res SysRoute) : Bool :=
+  holdsRoutes (msgs.map (normRoute true)) failed r
+
+/-- class of finding F-18: the dump is otherwise well formed and contains a default route
+    without `RTA_DST`, and the implementation panicked -/
+def defaultRouteClass (msgs : List RouteMsg) (failed : Bool) (r : Res SysRoute) : Bool :=
+  !failed && msgs.any (fun m => m.dstAbsent && m.dlen == 0) &&
+    (msgs.map (normRoute true)).all wellFormedRoute && r == .panic
+
 end Corerad.Spec.C13Addresser
